@@ -903,12 +903,14 @@ pub struct POrd(pub u8);
 pub struct PHash(pub u8);
 pub struct PAddVV(pub u8);
 pub struct PAddRR(pub u8);
+/// `&P + &P` only when both borrows share one lifetime (what `for<'a> &'a F: Add<&'a F>` asks for, and no more)
+pub struct PAddTied(pub u8);
 pub struct PNegV(pub u8);
 pub struct PNegR(pub u8);
 pub struct PAddAssignV(pub u8);
 pub struct PAddAssignR(pub u8);
 macro_rules! has_out { ($($t:ident),*) => { $(impl HasOut for $t { type Out = $t; })* } }
-has_out!(PAll, PNone, PClone, PCopy, PDebug, PDefault, PPartialEq, PEq, PPartialOrd, POrd, PHash, PAddVV, PAddRR, PNegV, PNegR, PAddAssignV, PAddAssignR);
+has_out!(PAll, PNone, PClone, PCopy, PDebug, PDefault, PPartialEq, PEq, PPartialOrd, POrd, PHash, PAddVV, PAddRR, PAddTied, PNegV, PNegR, PAddAssignV, PAddAssignR);
 impl core::ops::Add<PAll> for PAll { type Output = PAll; fn add(self, r: PAll) -> PAll { PAll(self.0 ^ r.0) } }
 impl<'x> core::ops::Add<&'x PAll> for PAll { type Output = PAll; fn add(self, r: &PAll) -> PAll { PAll(self.0 ^ r.0) } }
 impl<'x> core::ops::Add<PAll> for &'x PAll { type Output = PAll; fn add(self, r: PAll) -> PAll { PAll(self.0 ^ r.0) } }
@@ -919,6 +921,7 @@ impl core::ops::Neg for PAll { type Output = PAll; fn neg(self) -> PAll { self }
 impl<'x> core::ops::Neg for &'x PAll { type Output = PAll; fn neg(self) -> PAll { PAll(self.0) } }
 impl core::ops::Add<PAddVV> for PAddVV { type Output = PAddVV; fn add(self, _r: PAddVV) -> PAddVV { self } }
 impl<'x, 'y> core::ops::Add<&'y PAddRR> for &'x PAddRR { type Output = PAddRR; fn add(self, _r: &PAddRR) -> PAddRR { PAddRR(self.0) } }
+impl<'x> core::ops::Add<&'x PAddTied> for &'x PAddTied { type Output = PAddTied; fn add(self, _r: &'x PAddTied) -> PAddTied { PAddTied(self.0) } }
 impl core::ops::Neg for PNegV { type Output = PNegV; fn neg(self) -> PNegV { self } }
 impl<'x> core::ops::Neg for &'x PNegR { type Output = PNegR; fn neg(self) -> PNegR { PNegR(self.0) } }
 impl core::ops::AddAssign<PAddAssignV> for PAddAssignV { fn add_assign(&mut self, _r: PAddAssignV) {} }
